@@ -50,6 +50,14 @@ def wireOp (op : String) (args : List String) : Option J :=
       pure (jres (fun o => match o with
         | none => .null
         | some (t, body, rest) => .arr [.nat t, J.ofBytes body, J.ofBytes rest]) (readPacket b))
+  | "readpacket1", [h] => do
+      let b ← decBytes h
+      pure (jres (fun o => match o with
+        | none => .null
+        | some (t, body, rest) => .arr [.nat t, J.ofBytes body, J.ofBytes rest]) (readPacket1 b))
+  | "frame1", [t, d, pd] => do
+      let t ← decNat t; let d ← decBytes d; let pd ← decBytes pd
+      pure (jok (J.ofBytes (frame1 (UInt8.ofNat t) d pd)))
   | "rfcdecode", [h] => do let b ← decBytes h; pure (jok (J.ofOpt J.ofBytes (rfcDecode b)))
   | "crc", [h] => do let b ← decBytes h; pure (jok (.arr [.nat (crcCalc b), .nat (crcSpec b)]))
   | "kex.parse", [h] => do let b ← decBytes h; pure (jres jkex (kexParse b))
